@@ -648,6 +648,9 @@ class CallMixin:
         if ix.op == "Call" and ix.args and ix.args[0].op == "Ext" and ix.args[0].attr == "numpy.flatnonzero" and \
                 len(ix.args) == 2:
             return ix.args[1]
+        if ix.op == "Call" and ix.args and ix.args[0].op == "Ext" and ix.args[0].attr in ("numpy.nonzero", "numpy.where") \
+                and len(ix.args) == 2:
+            return ix.args[1]           # x[np.nonzero(m)] is x[m] (the whole tuple of index arrays)
         if ix.op == "Subscript" and ix.args[1].op == "Const" and ix.args[1].attr == 0 and ix.args[0].op == "Call" and \
                 ix.args[0].args and ix.args[0].args[0].op == "Ext" and \
                 ix.args[0].args[0].attr in ("numpy.nonzero", "numpy.where") and len(ix.args[0].args) == 2:
